@@ -285,7 +285,7 @@ func newEnv(t testing.TB, o envOpts) *env {
 			ReceiverMode:            o.mode,
 			DialOpts:                []grpc.DialOption{grpc.WithTransportCredentials(insecure.NewCredentials())},
 			ForwardTimeout:          o.forwardTimeout,
-			MaxBackoff:              time.Millisecond,
+			MaxBackoff:              time.Nanosecond, // a peer that answered Unavailable is retried at once: no locally generated "unavailable" answers
 			Limiter:                 lim,
 			AsyncForwardWorkerCount: o.workers,
 			ReplicationProtocol:     receive.ProtobufReplication,
